@@ -2,4 +2,4 @@ From Coq Require Import Extraction ExtrOcamlBasic.
 From Shisui Require Import Base.Bytes Model.StateTrie.
 Extraction Language OCaml.
 Extraction "c13_model.ml" traverse_orig traverse_kind traverse validate_content validate_content_orig put
-  content_verdict node_verdict account_verdict ref_along leaf_along expected_stored nibbles_deserialize wf_node is_top bytes_eqb.
+  content_verdict node_verdict account_verdict ref_along leaf_along expected_stored nibbles_deserialize run_history store_get wf_node is_top bytes_eqb.
